@@ -15,12 +15,17 @@ TIE_MODULES = ["FparserModel.Reader"]
 # continuation between the two words (known finding F-C04-3)
 KNOWN_PAIRS = {("IN", "OUT"), ("ERROR", "STOP"), ("DOUBLE", "PRECISION"), ("BLOCK", "DATA")}
 
-MODES = ["layout", "layout", "layout", "case", "semi", "kwpair"]
+QUOTE_COMMENTS = ["! don't", "! 3\" wide", "! it's \"half", "! 'open", "! say \"hi", "! ok", "! a 'b' \"c"]
+
+MODES = ["layout", "layout", "quotes", "case", "semi", "kwpair", "layout"]
 
 
 def _opts(mode, rng):
     if mode == "layout":
         return layout.FreeOpts(p_cont=0.35, comments=True, indent=rng.choice(["tree", "none", "random"]))
+    if mode == "quotes":
+        # continued statements with trailing comments that contain unbalanced quote marks
+        return layout.FreeOpts(p_cont=0.7, comments=True, p_trailing=0.6, p_between=0.3, p_comment=0.05, max_cuts=4, p_lit_cut=0.5)
     if mode == "case":
         return layout.FreeOpts(p_cont=0.2, comments=False, case=rng.choice(["upper", "lower", "random"]))
     if mode == "semi":
@@ -51,7 +56,7 @@ def run_case(case):
         return res
     rng = random.Random(case["seed"] ^ 0xC04)
     opts = _opts(mode, rng)
-    L = layout.render_free(p, case["seed"] ^ 0xC04, opts)
+    L = layout.render_free(p, case["seed"] ^ 0xC04, opts, comment_texts=QUOTE_COMMENTS if mode == "quotes" else None)
     src = L.text()
     for k, v in L.decisions.items():
         res["counts"]["lay:" + k] = v
@@ -68,7 +73,7 @@ def run_case(case):
             o_ = _opts(mode, random.Random(case["seed"] ^ 0xC04))
             o_.__dict__.update(opts.__dict__)
             o_.kw_protect = protect
-        return layout.render_free(q, case["seed"] ^ 0xC04, o_).text()
+        return layout.render_free(q, case["seed"] ^ 0xC04, o_, comment_texts=QUOTE_COMMENTS if mode == "quotes" else None).text()
 
     def kw_known(q, same):
         """failure disappears when only the known-sensitive keyword pairs are protected"""
